@@ -1,5 +1,5 @@
 """C05 - crop state stays inside its configured envelope (kind B, exploration)."""
-from .common import std_case, std_run, STATE_MEASURE  # noqa: F401
+from .common import reclamp_cn, std_case, std_run, STATE_MEASURE  # noqa: F401
 from ..monitors import mon_c05
 
 ID = "C05"
@@ -11,7 +11,7 @@ RULE = ("seeded swarm over all 37 built-in crops in calendar-day and thermal-tim
         "depth, harvest index, biomass and degree-day envelope is checked against the season's crop parameters. Non-trivial run: "
         "at least one in-season day with stress (early senescence, crop death, Tr < TrPot) or a restrictive layer / water table "
         "present; distinct = distinct configuration signatures")
-PROFILE = {"calendar_crop_p": 0.5, "custom_soil_p": 0.4, "restrictive_p": 0.6, "gw": 0.3, "gw_depths": [0.3, 0.45, 0.75, 1.0, 1.5, 2.5],
+PROFILE = {"reactive_p": 0.3, "calendar_crop_p": 0.5, "custom_soil_p": 0.4, "restrictive_p": 0.6, "gw": 0.3, "gw_depths": [0.3, 0.45, 0.75, 1.0, 1.5, 2.5],
            "event_kinds": ["drought", "dry_then_wet", "dry_then_wet", "heat_wave", "cold_snap", "storm", "et0_spike"], "events_per_year": 2.5,
            "crop_override_p": 0.4}
 
@@ -37,6 +37,7 @@ def gen_case(rng, tier, idx):
         spec["irr"] = {"method": rng.choice([1, 1, 2]), "kwargs": {"SMT": [70] * 4, "IrrInterval": 5, "MaxIrr": 40}, "schedule": None}
         spec["gw"] = None
         case["controller"] = None
+        reclamp_cn(spec)
     return case
 
 
